@@ -34,9 +34,29 @@ type lcase struct {
 	l       lock.Lock
 	nkeys   int
 	ntok    []int      // per key: number of Lock calls (tokens) so far
-	terms   [][]string // per key: observed events as Coq terms
-	human   [][]string
+	recs    [][]*rec // per key: observed events
 	contend bool
+}
+
+// one observed event; pruned is set when the lock.prune point is passed in the same critical
+// section as this (lock.removed) event: the EPrune event is emitted right behind it, which is its
+// real position - the new queue of the key has another mutex, so the log order of the prune
+// point relative to events on the new queue means nothing
+type rec struct {
+	term, human string
+	pruned      bool
+}
+
+func (c *lcase) flat(key int) (terms, human []string) {
+	for _, r := range c.recs[key] {
+		terms = append(terms, r.term)
+		human = append(human, r.human)
+		if r.pruned {
+			terms = append(terms, "EPrune")
+			human = append(human, "queue retired and map entry dropped (same critical section)")
+		}
+	}
+	return
 }
 
 func (c *lcase) newTok(key int) int {
@@ -47,11 +67,12 @@ func (c *lcase) newTok(key int) int {
 	return t
 }
 
-func (c *lcase) log(key int, term, human string) {
+func (c *lcase) log(key int, term, human string) *rec {
+	r := &rec{term: term, human: human}
 	c.mu.Lock()
-	c.terms[key] = append(c.terms[key], term)
-	c.human[key] = append(c.human[key], human)
+	c.recs[key] = append(c.recs[key], r)
 	c.mu.Unlock()
+	return r
 }
 
 // what the goroutine gid is doing right now (set by the goroutine itself before the call)
@@ -61,6 +82,11 @@ type activity struct {
 	key    int
 	tok    int  // Lock call: its token
 	idtok  int  // Unlock call: token whose id is used, -1 = foreign id
+}
+
+type lastRemoved struct {
+	c *lcase
+	r *rec
 }
 
 type callerRef struct {
@@ -108,8 +134,10 @@ func controller(site string, gid int64, args []int64) {
 	case "lock.prune":
 		// same critical section (and goroutine) as the preceding lock.removed event
 		if v, ok := lastRem.LoadAndDelete(gid); ok {
-			cr := v.(*callerRef)
-			cr.c.log(cr.key, "EPrune", "queue retired and map entry dropped")
+			lr := v.(*lastRemoved)
+			lr.c.mu.Lock()
+			lr.r.pruned = true
+			lr.c.mu.Unlock()
 		}
 	case "lock.removed":
 		v, ok := callers.Load(args[1])
@@ -126,9 +154,9 @@ func controller(site string, gid int64, args []int64) {
 				who, whoH = common.App("WUnlock", optTok(a.idtok)), fmt.Sprintf("Unlock with the id of caller %d (-1 = foreign)", a.idtok)
 			}
 		}
-		lastRem.Store(gid, cr)
-		cr.c.log(cr.key, common.App("ERem", common.Nat(cr.tok), common.Nat(int(args[2])), common.Nat(int(args[3])), who),
+		r := cr.c.log(cr.key, common.App("ERem", common.Nat(cr.tok), common.Nat(int(args[2])), common.Nat(int(args[3])), who),
 			fmt.Sprintf("remove caller %d at index %d, length after %d, by %s", cr.tok, args[2], args[3], whoH))
+		lastRem.Store(gid, &lastRemoved{cr.c, r})
 	case "lock.remove.miss":
 		if a != nil && !a.inLock {
 			a.c.log(a.key, "ERemMiss", "remove: id not queued")
@@ -213,15 +241,16 @@ func finish(c *lcase, hang bool, kind string) cres {
 	hum := map[string]interface{}{}
 	for k := 0; k < c.nkeys; k++ {
 		n, has := lock.QueueLen(c.l, keyName(k))
-		res.keys = append(res.keys, fmt.Sprintf("(Build_kcase %s %s %s %s)", common.Nat(c.ntok[k]), common.List(c.terms[k]), common.Bool(has), common.Nat(n)))
-		hum[keyName(k)] = map[string]interface{}{"lock_calls": c.ntok[k], "events": c.human[k], "entry_after_quiescence": has, "queued_after_quiescence": n}
+		terms, human := c.flat(k)
+		res.keys = append(res.keys, fmt.Sprintf("(Build_kcase %s %s %s %s)", common.Nat(c.ntok[k]), common.List(terms), common.Bool(has), common.Nat(n)))
+		hum[keyName(k)] = map[string]interface{}{"lock_calls": c.ntok[k], "events": human, "entry_after_quiescence": has, "queued_after_quiescence": n}
 	}
 	res.descr = map[string]interface{}{"kind": kind, "keys": hum, "stuck_waiter": hang, "map_entries_after_quiescence": lock.QueueCount(c.l)}
 	return res
 }
 
 func newCase(nkeys int) *lcase {
-	return &lcase{l: lock.New(), nkeys: nkeys, ntok: make([]int, nkeys), terms: make([][]string, nkeys), human: make([][]string, nkeys)}
+	return &lcase{l: lock.New(), nkeys: nkeys, ntok: make([]int, nkeys), recs: make([][]*rec, nkeys)}
 }
 
 func concurrentCase(r *common.Rng) cres {
@@ -322,7 +351,7 @@ func serialCase(r *common.Rng) cres {
 			ctx, cancel := context.WithCancel(context.Background())
 			x.cancel = cancel
 			before := func() int { n, _ := lock.QueueLen(c.l, keyName(0)); return n }()
-			evBefore := func() int { c.mu.Lock(); defer c.mu.Unlock(); return len(c.terms[0]) }()
+			evBefore := func() int { c.mu.Lock(); defer c.mu.Unlock(); return len(c.recs[0]) }()
 			go func(x *cl) {
 				gid := verifhook.GoID()
 				a := &activity{c: c}
@@ -344,7 +373,7 @@ func serialCase(r *common.Rng) cres {
 			// wait for the enqueue to be logged
 			for dl := time.Now().Add(2 * time.Second); time.Now().Before(dl); {
 				c.mu.Lock()
-				n := len(c.terms[0])
+				n := len(c.recs[0])
 				c.mu.Unlock()
 				if n > evBefore {
 					break
